@@ -70,8 +70,9 @@ class Ctx:
             raise RuntimeError("rsync failed: " + r.stdout)
         cfg = os.path.join(src, ".config")
         if os.path.exists(cfg):
-            s = open(cfg).read().replace("srcdir := /repo", "srcdir := " + src).replace(
-                "objdir := /repo", "objdir := " + src)
+            s = open(cfg).read()
+            s = re.sub(r"(?m)^(override\s+)?srcdir\s*:=.*$", lambda m: (m.group(1) or "") + "srcdir := " + src, s)
+            s = re.sub(r"(?m)^(override\s+)?objdir\s*:=.*$", lambda m: (m.group(1) or "") + "objdir := " + src, s)
             open(cfg, "w").write(s)
         self.scratch = d
         self.src = src
